@@ -5,6 +5,12 @@ props = [json.loads(l) for l in open('/verif/properties.jsonl')]
 ids = [p['id'] for p in props]
 
 CHECKS = {
+ "C03": dict(category="exploration", technique="invariant monitor over dumped IR at quiescent points (residue, names, ANF scoping and typing) + single-point type-error injection with the typer's verdict as the observed event",
+   text="After every successful compile of corpus and generated programs the Mono, Lift and ANF outputs are walked: no type parameter / inference variable / generic application / wildcard array length after monomorphisation, no duplicate function names, and in ANF every variable use has a binder of the same type, calls agree with callee types, conditions are bool, branches and bodies have the declared types. Then one type error is injected at each eligible site (call argument, struct field, annotated let, function result, if condition, tuple arity, argument count, unknown field) and the variant must be rejected by the typer - not accepted, not rejected later, not a crash.",
+   design_ref="DESIGN.md 4/C03", note="ANF is the stage checked for typing (Mono/Lift are checked for residue and names); polymorphic array/ref/vec builtins are not type-checked at call sites"),
+ "C10": dict(category="exploration", technique="runtime monitor with an arithmetic reference model (Rust fixed-width / IEEE) over exhaustive 8-bit operand spaces, boundary/random pairs, literal spellings and float32 rounding midpoints",
+   text="int8/uint8: all 65,536 operand pairs for each of 10 binary operators and all 256 operands of unary minus, operands in variables; all ten integer types: boundary x boundary + random pairs through variables and through literals (constant path); every literal spelling 0..300 and the neighbourhoods of MIN/MAX with out-of-range spellings required to be rejected; division by zero must fail at run time (used / unused, variable / literal divisor); float32/float64 operations against correctly rounded results; float32 literals just above / below / on rounding midpoints; float*_to_string must parse back to the value.",
+   design_ref="DESIGN.md 4/C10", note="quick runs a subset of the 8-bit operator spaces (7 of 20), thorough all; float results are compared through == against literals printed with Rust's shortest round-trip formatting"),
  "C06": dict(category="exploration", technique="differential runtime monitor over exhaustively enumerated pattern matrices (refsem first-match oracle vs executed Go)",
    text="For 17 scrutinee shapes all pattern matrices up to 2 (quick) / 3 (thorough) rows over the full cell alphabet (wildcard, variable, literals, constructors with sub-patterns to depth 2, struct patterns with permuted fields) are compiled - 40 matrices per program - and applied to every value of the shape; each arm prints its index and bound variables, the scrutinee carries a tick; values no row matches are executed last and must fail there; integer-literal matrices without catch-all must be rejected at compile time. Larger (4-7 row) matrices are sampled.",
    design_ref="DESIGN.md 4/C06", note="exhaustive sub-spaces are listed in the evidence counters (exhaustive:<shape>:rows<k>); beyond the cap matrices are sampled"),
